@@ -290,6 +290,14 @@ pub mod checks {
                 out.push(JpQuery::new(vec![Segment::Selector(Selector::Slice(Some(i), Some(-i), Some(1)))]));
                 out.push(JpQuery::new(vec![Segment::Selector(Selector::Slice(None, None, Some(i)))]));
             }
+        } else if name == "text_plain" {
+            // names and indexes only ("plain paths"), depth 1..3: the queries for which a document-specific shortcut is conceivable
+            let mut segs: Vec<Segment> = ["a", "b", "k", "0", "1", "a/b", "a~b", "~0", "x"].iter().map(|n| Segment::Selector(Selector::Name(n.to_string()))).collect();
+            for i in -2..=2 { segs.push(Segment::Selector(Selector::Index(i))); }
+            for a in &segs { out.push(JpQuery::new(vec![a.clone()]));
+                for b in &segs { out.push(JpQuery::new(vec![a.clone(), b.clone()]));
+                    if tier == "thorough" { for c in &segs { out.push(JpQuery::new(vec![a.clone(), b.clone(), c.clone()])); } } } }
+            if tier != "thorough" { for _ in 0..400 { out.push(JpQuery::new(vec![segs[rng.below(segs.len())].clone(), segs[rng.below(segs.len())].clone(), segs[rng.below(segs.len())].clone()])); } }
         } else {
             let a = atoms();
             let mut fs = filters(&mut rng, if tier == "thorough" { 400 } else { 150 });
@@ -317,6 +325,12 @@ pub mod checks {
         let mut rep = Report::new(name);
         let ds: Vec<Value> = if name == "text_arith" { let mut v: Vec<Value> = (0..=5).map(|n| Value::Array((0..n).map(|i| json!(i)).collect())).collect();
                                                         v.push(json!([[1, 2, 3], [3, 2, 1], [1], [], [3, 1]])); v }
+                             else if name == "text_plain" {
+                                 // objects whose member names look like indexes or contain JSON-pointer metacharacters come first
+                                 let mut v = vec![json!({"a": {"0": "zero", "1": [1, 2]}, "0": {"a": 1}}), json!({"a/b": 1, "a": {"b": 2}, "a~b": 3, "a~0b": 4, "~0": 5, "~": 6}),
+                                                  json!({"a": [{"0": 1}, [10, 11]], "b": {"-1": 1, "a": {"k": [1, 2, 3]}}}), json!([{"0": "m"}, ["e0", "e1"]]), json!({"0": [0, 1], "1": {"0": {"1": 2}}}),
+                                                  json!({"a~1b": 7, "a/b": 8, "x": {"a~1b": 9}}), json!({"a": {"~0": 1, "~": 2, "k": {"~0": 3}}})];
+                                 v.extend(docs(if tier == "thorough" { 200 } else { 30 }, seed)); v }
                              else { docs(if tier == "thorough" { 200 } else { 30 }, seed) };
         let qs = text_queries(name, tier, seed);
         let stride = if tier == "thorough" || name == "text_arith" { 1 } else { 5 };
@@ -355,6 +369,17 @@ pub mod checks {
                             _ => false,
                         };
                         if !api_ok { rep.fail(&format!("{}.api_agree", name), &feats, w(json!("query / query_only_path / query_with_path disagree with js_path"))); }
+                        // C15 at the public API: the same text over a second Queryable implementation of the same document gives
+                        // the same paths and equal values, through every trait method
+                        let j = from_value(d);
+                        let view_ok = match (catch_unwind(AssertUnwindSafe(|| j.query(&text))), catch_unwind(AssertUnwindSafe(|| j.query_only_path(&text))), catch_unwind(AssertUnwindSafe(|| j.query_with_path(&text))),
+                                             catch_unwind(AssertUnwindSafe(|| d.query(&text))), catch_unwind(AssertUnwindSafe(|| d.query_only_path(&text))), catch_unwind(AssertUnwindSafe(|| d.query_with_path(&text)))) {
+                            (Ok(Ok(jv)), Ok(Ok(jp)), Ok(Ok(jb)), Ok(Ok(dv)), Ok(Ok(dp)), Ok(Ok(db))) =>
+                                jp == dp && jv.iter().map(|x| (*x).clone()).collect::<Vec<_>>() == dv.iter().map(|x| from_value(x)).collect::<Vec<_>>()
+                                && jb.iter().map(|r| (r.clone().val().clone(), r.clone().path())).collect::<Vec<_>>() == db.iter().map(|r| (from_value(r.clone().val()), r.clone().path())).collect::<Vec<_>>(),
+                            _ => false,
+                        };
+                        if !view_ok { rep.fail(&format!("{}.api_view_independent", name), &feats, w(json!("query / query_only_path / query_with_path over kjson::J differ from the same calls over serde_json::Value"))); }
                         if rep.samples.len() < 4 && !want.is_empty() && rep.evaluations % 211 == 1 { rep.samples.push(json!({"text": text, "doc": d, "result": want.iter().map(|x| &x.1).collect::<Vec<_>>()})); }
                     }
                 }
